@@ -17,7 +17,7 @@ func (un *Unit) monitorFor(structT types.Type) *Monitor {
 		return nil
 	}
 	for _, m := range un.specs.Monitors {
-		if m.Type == n.Obj().Name() && n.Obj().Pkg() != nil && n.Obj().Pkg().Name() == m.Pkg {
+		if m.Type == n.Obj().Name() && n.Obj().Pkg() != nil && pkgKey(n.Obj().Pkg()) == m.Pkg {
 			return m
 		}
 	}
